@@ -228,6 +228,10 @@ pub fn cmd_walk(args: &[&str]) -> String {
         match Glob::new(&expression) {
             Ok(glob) => {
                 let anchor = glob.verif_anchor(base.clone());
+                if !anchor.0.starts_with(&base) {
+                    // Never leave the sandbox directory (rooted globs replace the directory given).
+                    return format!("refused\tanchor={}|{}", path_hex(&anchor.0), anchor.1);
+                }
                 drive6(glob.walk_with_behavior(base, behavior), &layers, &observations).map(
                     |items| format!("{}\tanchor={}|{}", items, path_hex(&anchor.0), anchor.1),
                 )
